@@ -119,6 +119,107 @@ CLAIMED = {
                 'mode is not explored.',
  },
 
+ 'C07': {
+  'engine'    : 'sched',
+  'category'  : 'model_checking',
+  'design_ref': 'DESIGN.md 4 (C07), 3.2, A.5',
+  'technique' : 'stateless model checking of the real executor threads under a '
+                'controlled scheduler, iterative delay bounding (systematic '
+                'schedule enumeration, CHESS/delay-bounded style)',
+  'text'      : 'The real Popen executor methods run as real Python threads '
+                '(intake work_cb/work/_launch_task, _watch/_check_running, '
+                '_to_watcher, _control_cb/control_cb/cancel_task, process-exit '
+                'environment threads, a clock thread) under a baton scheduler '
+                'with scheduling points at every source line of the functions '
+                'that touch shared executor state and at every lock, sleep, '
+                'poll, process wait/kill.  For each scenario (exit, cancel, '
+                'timeout, cancel+timeout, cancel before intake, launch faults '
+                'at 4 points, 1-2 tasks, exit codes) every schedule with at '
+                'most 1 (quick) / 2 (thorough) deviations from the default '
+                'scheduler is executed to completion; per task the '
+                'observation log must show: one AGENT_EXECUTING first, exactly '
+                'one hand-on (push with outcome, or FAILED), exactly one '
+                'unschedule publication, outcome consistent with the exit '
+                'code / cancel request, nothing left in _tasks, no deadlock, '
+                'no thread death, serialisable messages.',
+  'note'      : 'Line-level (not byte-code-level) interleavings; advance() and '
+                'publish() are atomic; a killed process dies at once; '
+                'sp.Popen/os.killpg/time are harness fakes; script creation is '
+                'a succeed-or-raise seam.',
+ },
+
+ 'C09': {
+  'engine'    : 'enum',
+  'category'  : 'exploration',
+  'design_ref': 'DESIGN.md 4 (C09), A.10',
+  'technique' : 'exhaustive bounded enumeration of launch methods x placements '
+                'x generation histories on the real launchers, commands '
+                'interpreted by independent per-method readers',
+  'text'      : '41 launcher variants (all launch methods and flavours) are '
+                'built through the real LaunchMethod.create/init_from_info; '
+                'for 416+ placements (all compositions of 1-4 ranks over 1-3 '
+                'nodes, arbitrary core/GPU index sets, placements crossing the '
+                'host-list/host-file thresholds) the command and any host/'
+                'rank/ERF file are read back by a per-method reader and '
+                'compared with the placement (process count, node set, '
+                'per-node counts, pinned cores/GPUs); every ordered pair '
+                '(thorough: all pairs and triples) of placements on one '
+                'launcher object must give the same command as a fresh '
+                'launcher; refusals must be honest; find_launcher returns the '
+                'first accepting launcher for every shipped order.',
+  'note'      : 'The readers encode launcher CLI semantics from the code '
+                'comments and the tools documentation (no MPI launcher can be '
+                'executed here); 11 keys of 8 root causes are recorded as '
+                'known findings (launcher semantics cannot be validated by '
+                'execution, so they are not repaired here).',
+ },
+
+ 'C10': {
+  'engine'    : 'enum',
+  'category'  : 'exploration',
+  'design_ref': 'DESIGN.md 4 (C10)',
+  'technique' : 'exhaustive bounded enumeration of task descriptions; the '
+                'generated scripts are executed by bash against a probe',
+  'text'      : 'For every single value and every pair of values of the '
+                'description fields (executable form, argument lists of 12 '
+                'shell-hostile atoms alone and in ordered pairs, environment '
+                'maps, stdout/stderr names, pre/post_exec lists incl. per-rank '
+                'dicts, ranks 1-2, GPUs, sync, exit codes, sandbox location) '
+                'the real Popen._handle_task writes launch and exec scripts '
+                'and starts them; a probe executable dumps argv/env/cwd; a '
+                'stand-in mpirun runs the exec script once per rank.  Oracle: '
+                'argv, cwd, described env, RP_* variables, stdout/stderr '
+                'files, pre < exec < post order, per-rank entries only on '
+                'their rank, failing pre_exec prevents execution, exit code '
+                'plumbing; failures are shrunk and attributed to history if a '
+                'fresh executor passes.',
+  'note'      : '$VAR/back-tick expansion in arguments is a documented feature '
+                'and excluded; executable/sandbox paths with spaces, '
+                'named_env and OpenMP are outside the alphabet.',
+ },
+
+ 'C11': {
+  'engine'    : 'enum',
+  'category'  : 'exploration',
+  'design_ref': 'DESIGN.md 4 (C11), A.9',
+  'technique' : 'exhaustive bounded enumeration of staging directives through '
+                'the four real staging components on a temp file tree',
+  'text'      : 'Real Task/expand_description, RoundRobin binding with the '
+                'real Session sandbox getters, and the real tmgr/agent '
+                'staging_input and staging_output components (each driven '
+                'through work_cb() on the in-memory net, local staging '
+                'backend) process every single directive of the product '
+                '(form x action x source location x target location x source '
+                'present/missing), ordered pairs, input+output combinations, '
+                'task outcomes x stage_on_error and odd spellings; every bulk '
+                'carries a bystander task.  An independent URL resolver '
+                'predicts where each target must appear with which content; '
+                'unstageable directives must fail that task only.',
+  'note'      : 'Directories as sources, DOWNLOAD and pilot-level staging are '
+                'outside the alphabet; output-side TARBALL is a recorded known '
+                'finding (not implemented in radical.pilot).',
+ },
+
  'C12': {
   'engine'    : 'bfs',
   'category'  : 'model_checking',
